@@ -204,10 +204,12 @@ class _Guard:
     def check(self, rec, site, op, seen=None, **sub):
         """True if nothing was modified by ``op``.  ``seen``: report each modified item once."""
         ok = True
-        for name, v, sig in self.vars:
+        for i, (name, v, sig) in enumerate(self.vars):
             rec.validated += 1
-            if _sig(v) != sig:
+            now = _sig(v)
+            if now != sig:
                 ok = False
+                self.vars[i] = (name, v, now)  # later operations are only blamed for further changes
                 if seen is not None:
                     if (site, name) in seen:
                         continue
